@@ -76,6 +76,11 @@ def alphabet(unseeded_512=None):
                                              'family': 'near-miss'}))
   A.append(('low-hamming-plus2', lh['n'] + 2, {'planted': None, 'slow': False,
                                              'family': 'near-miss'}))
+  gshared = nt.rand_prime('nm1-g', 140)
+  for tag in ('a', 'b'):
+    f = nt.rand_prime('nm1-f-' + tag, 1900)
+    A.append(('nm1-' + tag, 2 * gshared * f + 1, {'planted': None, 'slow': False,
+                                                  'family': 'nm1-shared'}))
   s1, s2 = g.strong(2048, 'shared1'), g.strong(2048, 'shared2')
   A.append(('shared-a', s1['p'] * s1['q'], {'planted': sorted([s1['p'], s1['q']]), 'slow': False,
                                             'family': 'shared', 'healthy_alone': True}))
